@@ -15,6 +15,7 @@ import (
 	"encoding/json"
 	"fmt"
 	"os"
+	"sync/atomic"
 	"testing"
 
 	"gitlab.com/yawning/obfs4.git/internal/verifkit/detrand"
@@ -32,8 +33,6 @@ type vf10Cut struct {
 	Chunk int    `json:"chunk"` // release chunk size (0: one segment)
 	Seed  uint64 `json:"seed"`
 }
-
-const vf10SteeringLost = "steering-lost"
 
 var (
 	vf10CutPeerWrites = []int{20, 1, 40}
@@ -58,13 +57,13 @@ func vf10CutLens(big bool) (inLen, peerHS, outLen int) {
 	return
 }
 
+// vf10Unsteered counts cases in which the real side's padding did not come out
+// as steered (the implementation draws it differently): such cases are still
+// run - every cut is a valid case - only the claim "every outbound offset" is
+// dropped from the evidence.
+var vf10Unsteered atomic.Int64
+
 func vf10RunCut(cs vf10Cut) (msg string, insideHS bool) {
-	var steeringLost bool
-	defer func() {
-		if steeringLost && msg == "" {
-			msg = vf10SteeringLost
-		}
-	}()
 	out := &vf10Out{}
 	detrand.Seed(cs.Seed)
 	defer detrand.Real()
@@ -111,10 +110,7 @@ func vf10RunCut(cs vf10Cut) (msg string, insideHS bool) {
 		return fail("%s", m)
 	}
 	if !ep.Exited() && int(n.Written(realSide)) != peerHS {
-		// the padding steering did not take effect (different math/rand internals?):
-		// the offsets of this enumeration would be meaningless
-		steeringLost = true
-		return "", insideHS
+		vf10Unsteered.Add(1)
 	}
 	// The peer's side of the exchange, computed by the reference.
 	var plain []byte
@@ -212,9 +208,10 @@ func vf10RunCut(cs vf10Cut) (msg string, insideHS bool) {
 		if wc.setupWrErrs.Load() > 0 && ep.SetupErr() == nil {
 			return fail("VIOL[c10-obfs2-error-swallowed]: a write failed during the handshake and the handshake did not return an error")
 		}
-		if cs.Off < outLen && wc.writeErrs.Load() == 0 {
-			return fail("harness: write error at offset %d of %d was never hit", cs.Off, outLen)
+		if int64(cs.Off) < n.Written(realSide) && wc.writeErrs.Load() == 0 {
+			return fail("harness: write error at offset %d of %d was never hit", cs.Off, n.Written(realSide))
 		}
+		_ = outLen
 		_ = writeErrHit
 	} else {
 		// a cut strictly inside the peer's handshake can never yield a connection
@@ -238,7 +235,7 @@ func TestVerifC10Obfs2Cuts(t *testing.T) {
 		if err := json.Unmarshal([]byte(rc), &cs); err != nil {
 			t.Fatalf("bad replay case: %v", err)
 		}
-		if msg, _ := vf10RunCut(cs); msg != "" && msg != vf10SteeringLost {
+		if msg, _ := vf10RunCut(cs); msg != "" {
 			fmt.Printf("VERIF-REPLAY-CASE: %s\n", rc)
 			t.Fatalf("%s", msg)
 		}
@@ -246,7 +243,6 @@ func TestVerifC10Obfs2Cuts(t *testing.T) {
 	}
 	c := ev.For(vf10Prop())
 	c.Rule("obfs2-cuts: valid exchange with the reference peer (both paddings steered to 0: 85 bytes in / 89 bytes out) cut by EOF / injected read error at EVERY inbound offset and by an injected write error at EVERY outbound offset, both roles, release chunk sizes 1, 7 and 'one segment'; with both paddings at 8192: offsets at every field boundary -1/0/+1 plus a pseudo-random sample; oracle: no panic, every call returns, write errors are returned, a handshake cut short never succeeds, delivered bytes are a prefix of what the peer sent, deadline discipline; non-trivial = cut inside the handshake; distinct by construction")
-	c.Floor("obfs2-cuts-steered/obfs2-cuts", 0.99) // the padding steering that keeps the exchange small works
 	shard, nshards := ev.IntEnv("VERIF_SHARD", 0), ev.IntEnv("VERIF_NSHARDS", 1)
 	seed := uint64(ev.IntEnv("VERIF_SEED", 1))
 	var cases []vf10Cut
@@ -297,12 +293,6 @@ func TestVerifC10Obfs2Cuts(t *testing.T) {
 		cs := cases[i]
 		cs.Seed = seed*1000003 + uint64(i)
 		msg, inside := vf10RunCut(cs)
-		if msg == vf10SteeringLost {
-			c.Class("obfs2-cuts-steering-lost", 1)
-			c.Class("obfs2-cuts", 1)
-			total++
-			continue
-		}
 		if msg != "" {
 			js, _ := json.Marshal(cs)
 			fmt.Printf("VERIF-REPLAY-CASE: %s\n", js)
@@ -313,7 +303,6 @@ func TestVerifC10Obfs2Cuts(t *testing.T) {
 			nt++
 		}
 		c.Class("obfs2-cuts", 1)
-		c.Class("obfs2-cuts-steered", 1)
 		c.Class("obfs2-cuts-"+cs.Kind, 1)
 		if inside {
 			c.Class("obfs2-cuts-inside-handshake", 1)
@@ -326,7 +315,8 @@ func TestVerifC10Obfs2Cuts(t *testing.T) {
 		}
 	}
 	c.Bulk(total, nt)
-	if shard == 0 {
+	c.Class("obfs2-cuts-padding-not-as-steered", vf10Unsteered.Load())
+	if shard == 0 && vf10Unsteered.Load() == 0 {
 		c.Subspace("obfs2 minimal exchange: every offset x {EOF, read error, write error} x 2 roles x 3 chunkings", int64(small))
 	}
 }
